@@ -103,7 +103,8 @@ def script_of(evs):
                 item = N.srv_frame(0, p[len(pending_first):], fin=1)
                 pending_first = None
             elif k in "TB":
-                cut = len(p) // 2
+                # (optional 5th field "ef": the FINAL fragment is empty — the whole payload travels in the first one)
+                cut = len(p) if (len(ev) == 5 and ev[4] == "ef") else len(p) // 2
                 item = N.srv_frame(op, p[:cut], fin=0) + N.srv_frame(0, p[cut:], fin=1)
             else:
                 item = N.srv_frame(op, p)
